@@ -297,7 +297,7 @@ def replay_blanks(inp):
     got = {g.unicode for g in ufo if g.name not in (".notdef", ".space")}
     order_ok = list(ufo.glyphOrder[2:]) == sorted(ufo.glyphOrder[2:])
     if got != want or not order_ok or len(ufo.glyphOrder) != 2 + len(want):
-        return {"seqs": [[hex(c) for c in s] for s in seqs], "blank_glyph_unicodes": sorted(hex(c) for c in got), "expected": sorted(hex(c) for c in want), "glyphOrder": list(ufo.glyphOrder)}
+        return {"seqs": [[hex(c) for c in s] for s in seqs], "blank_glyph_unicodes": sorted(hex(c) if c is not None else "none" for c in got), "expected": sorted(hex(c) for c in want), "glyphOrder": list(ufo.glyphOrder)}
     return None
 
 
@@ -343,11 +343,12 @@ def job_blanks(jc):
         # every cp not directly mapped has exactly one blank glyph carrying it
         for c in allc:
             is_direct = z3.Or(*[c.t == d.t for d in direct]) if direct else z3.BoolVal(False)
-            n_blank = z3.Sum(*[z3.If(core.as_term(gl.unicode) == z3.ToReal(c.t), 1, 0) for gl in ufo.new]) if ufo.new else z3.IntVal(0)
+            carrying = [gl for gl in ufo.new if getattr(gl, "unicode", None) is not None]  # a blank glyph without a code point carries nothing
+            n_blank = z3.Sum(*[z3.If(core.as_term(gl.unicode) == z3.ToReal(c.t), 1, 0) for gl in carrying]) if carrying else z3.IntVal(0)
             conj.append(z3.If(is_direct, n_blank == 0, n_blank == 1))
         # every blank glyph carries a cp that occurs in the inputs
         for gl in ufo.new:
-            conj.append(z3.Or(*[core.as_term(gl.unicode) == z3.ToReal(c.t) for c in allc]))
+            conj.append(z3.Or(*[core.as_term(gl.unicode) == z3.ToReal(c.t) for c in allc]) if getattr(gl, "unicode", None) is not None else z3.BoolVal(False))
         order = ufo.glyphOrder
         conj.append(z3.BoolVal(order[:2] == [".notdef", ".space"] and len(order) == 2 + len(ufo.new)))
         jc.prove(r, z3.And(*conj), "blank glyphs = (all code points) - (single-codepoint inputs), each once, with its unicode", inp, replay_blanks, key="C04:blanks:set")
